@@ -54,7 +54,11 @@ class Lexer(object):
 
     @TOKEN(r"[\-\+]?\d+")
     def t_INT(self, t):
-        t.value = int(t.value)
+        try:
+            t.value = int(t.value)
+        except ValueError:
+            # Python refuses to convert integer literals with more than a few thousand digits
+            raise SyntaxError("Integer literal too long at position {0}".format(t.lexpos))
         return t
 
     @TOKEN(r'("(\\.|[^"\\])*")|(\'(\\.|[^\'\\])*\')')
